@@ -157,8 +157,113 @@ end
 
 def fuelFor (input : List Char) : Nat := 16 * input.length + 20000
 
+/-- `Tx3Grammar::parse(rule, input)` with a given recursion budget. -/
+def parseF (g : Grammar) (fuel : Nat) (rule : Nat) (input : String) : Res :=
+  eval g fuel false true (.ref rule) { rest := input.toList, pos := 0 }
+
 /-- `Tx3Grammar::parse(rule, input)`: the pairs, or rejection. -/
 def parse (g : Grammar) (rule : Nat) (input : String) : Res :=
-  eval g (fuelFor input.toList) false true (.ref rule) { rest := input.toList, pos := 0 }
+  parseF g (fuelFor input.toList) rule input
+
+/-! ### How much fuel is enough
+
+A grammar is *well-formed* (Ford's analysis, what pest's validator enforces before it generates a parser) when
+no rule can reach itself without consuming input and no repetition has a body that can match the empty string.
+`check` decides it from a certificate: which rules may match the empty string (`nul`) and a rank per rule
+(`rk`) that strictly decreases along every call made before anything is consumed.  `Tx3Proofs.C12Fuel` proves
+that for a grammar passing `check`, `fuelNeeded` is enough for every input: the engine never answers `fuelOut`. -/
+
+def PExpr.size : PExpr → Nat
+  | .seq a b => a.size + b.size + 1
+  | .choice a b => a.size + b.size + 1
+  | .star e => e.size + 1
+  | .plus e => 2 * e.size + 3          -- evaluated as `e ~ e*`
+  | .opt e => e.size + 1
+  | .not e => e.size + 1
+  | _ => 1
+
+/-- May succeed without consuming anything (an over-approximation), `nul i` answering for rule `i`. -/
+def canEmpty (nul : Nat → Bool) : PExpr → Bool
+  | .str cs => cs.isEmpty
+  | .any => false
+  | .ranges _ => false
+  | .soi => true
+  | .eoi => true
+  | .ref i => nul i
+  | .seq a b => canEmpty nul a && canEmpty nul b
+  | .choice a b => canEmpty nul a || canEmpty nul b
+  | .star _ => true
+  | .plus e => canEmpty nul e
+  | .opt _ => true
+  | .not _ => true
+
+/-- Every rule called before anything is consumed has rank below `r`, every other below `R`; the bodies of
+repetitions consume. -/
+def headOK (nul : Nat → Bool) (rk : Nat → Nat) (R : Nat) : Nat → PExpr → Bool
+  | r, .ref i => decide (rk i < r)
+  | r, .seq a b => headOK nul rk R r a && headOK nul rk R (if canEmpty nul a then r else R) b
+  | r, .choice a b => headOK nul rk R r a && headOK nul rk R r b
+  | r, .star e => headOK nul rk R r e && !canEmpty nul e
+  | r, .plus e => headOK nul rk R r e && !canEmpty nul e
+  | r, .opt e => headOK nul rk R r e
+  | r, .not e => headOK nul rk R r e
+  | _, _ => true
+
+/-- One more than the highest rank among the rules called before anything is consumed (0: none). -/
+def headMax (nul : Nat → Bool) (rk : Nat → Nat) : PExpr → Nat
+  | .ref i => rk i + 1
+  | .seq a b => max (headMax nul rk a) (if canEmpty nul a then headMax nul rk b else 0)
+  | .choice a b => max (headMax nul rk a) (headMax nul rk b)
+  | .star e => headMax nul rk e
+  | .plus e => headMax nul rk e
+  | .opt e => headMax nul rk e
+  | .not e => headMax nul rk e
+  | _ => 0
+
+structure Cert where
+  nul : List Bool
+  rk : List Nat
+
+def Cert.nulOf (c : Cert) (i : Nat) : Bool := c.nul.getD i true
+def Cert.rkOf (c : Cert) (i : Nat) : Nat := c.rk.getD i 0
+
+def iter {α} (f : α → α) : Nat → α → α
+  | 0, x => x
+  | n + 1, x => iter f n (f x)
+
+/-- The certificate, by fixpoint iteration (as many rounds as there are rules). -/
+def computeCert (g : Grammar) : Cert :=
+  let rules := g.rules.toList
+  let n := rules.length
+  let nul := iter (fun (nul : List Bool) => rules.map fun r => canEmpty (fun i => nul.getD i true) r.body) n
+    (List.replicate n false)
+  let rk := iter (fun (rk : List Nat) => rules.map fun r => headMax (fun i => nul.getD i true) (fun i => rk.getD i 0) r.body) n
+    (List.replicate n 0)
+  { nul, rk }
+
+def ruleOK (c : Cert) (R S : Nat) (i : Nat) (r : Rule) : Bool :=
+  headOK c.nulOf c.rkOf R (c.rkOf i) r.body && (!canEmpty c.nulOf r.body || c.nulOf i) &&
+    decide (c.rkOf i < R) && decide (r.body.size ≤ S)
+
+def checkFrom (c : Cert) (R S : Nat) : Nat → List Rule → Bool
+  | _, [] => true
+  | i, r :: rs => ruleOK c R S i r && checkFrom c R S (i + 1) rs
+
+/-- The grammar is well-formed, as witnessed by `c`, with ranks below `R` and rule bodies no larger than `S`;
+the two skipped rules consume. -/
+def check (g : Grammar) (c : Cert) (R S : Nat) : Bool :=
+  checkFrom c R S 0 g.rules.toList && !c.nulOf g.whitespace && !c.nulOf g.comment && decide (4 ≤ S) &&
+    decide (c.rkOf g.whitespace < R) && decide (c.rkOf g.comment < R)
+
+def rankBound (c : Cert) : Nat := c.rk.foldl max 0 + 1
+def sizeBound (g : Grammar) : Nat := g.rules.toList.foldl (fun m r => max m r.body.size) 4
+
+/-- The coefficients of the budget: per byte of input, per rank, per node of an expression, and what a skip needs. -/
+def coefB (S : Nat) : Nat := 2 * S + 1
+def coefA (R S : Nat) : Nat := coefB S * R + 2 * S + 4
+def reserve (R S : Nat) : Nat := coefB S * R + 12
+
+/-- Enough fuel for an input of `len` characters. -/
+def fuelNeeded (R S len : Nat) : Nat := coefA R S * len + coefB S * R + 2 + reserve R S
 
 end Tx3.Peg
